@@ -97,7 +97,20 @@ def run_carrier(carrier: str, steps: List[Dict[str, Any]], client_fn: Callable) 
     server_log: List[Any] = LAST_SERVER_LOG
     del server_log[:]
 
-    cur = {"cuts": []}
+    cur: Dict[str, Any] = {"cuts": [], "spell": {}}
+
+    def dumps(m: Any) -> str:
+        # how the peer's serialiser happens to spell JSON: compact, or with a space after ':' and ','
+        return json.dumps(m, ensure_ascii=False, separators=(",", ":") if cur["spell"].get("compact") else None)
+
+    def sse_block(m: Any, legacy: bool) -> str:
+        # how the peer spells an event: with or without the optional space after the colon, with or without the event
+        # type (untyped events are 'message' events), LF or CRLF - the legacy transport documents 'data: ' with the space
+        sp = cur["spell"]
+        eol = "\r\n" if sp.get("crlf") else "\n"
+        colon = ":" if (sp.get("nospace") and not legacy) else ": "
+        head = "" if sp.get("untyped") else f"event{colon}message{eol}"
+        return f"{head}data{colon}{dumps(m)}{eol}{eol}"
 
     def next_reply(req: Dict[str, Any]) -> Optional[List[Dict[str, Any]]]:
         if not (isinstance(req, dict) and "method" in req and req.get("id") is not None):
@@ -105,6 +118,7 @@ def run_carrier(carrier: str, steps: List[Dict[str, Any]], client_fn: Callable) 
         i = counter["n"]
         counter["n"] += 1
         cur["cuts"] = steps[i].get("cuts", []) if i < len(steps) else []
+        cur["spell"] = steps[i].get("spell", {}) if i < len(steps) else {}
         if i >= len(steps):
             return [{"jsonrpc": "2.0", "id": req["id"], "result": {}}]
         return reply_for(steps[i], req)
@@ -125,7 +139,7 @@ def run_carrier(carrier: str, steps: List[Dict[str, Any]], client_fn: Callable) 
                             req_ = json.loads(line)
                             server_log.append(req_.get("method") if isinstance(req_, dict) else "?")
                             rep = next_reply(req_)
-                            blob = b"".join((json.dumps(m, ensure_ascii=False) + "\n").encode("utf-8") for m in rep or [])
+                            blob = b"".join((dumps(m) + ("\r\n" if cur["spell"].get("crlf") else "\n")).encode("utf-8") for m in rep or [])
                             for piece in segments(blob, cur["cuts"]):  # pipe reads are not aligned to lines
                                 proc.stdout.feed(piece)
 
@@ -144,8 +158,8 @@ def run_carrier(carrier: str, steps: List[Dict[str, Any]], client_fn: Callable) 
                     return httpx.Response(202)
                 server_log.append(req_.get("method") if isinstance(req_, dict) else "?")
                 if carrier == "http-json":
-                    return httpx.Response(200, headers={"content-type": "application/json"}, content=_agen(segments(json.dumps(rep[-1], ensure_ascii=False).encode("utf-8"), cur["cuts"])))
-                body = "".join("event: message\ndata: " + json.dumps(m, ensure_ascii=False) + "\n\n" for m in rep)
+                    return httpx.Response(200, headers={"content-type": "application/json"}, content=_agen(segments(dumps(rep[-1]).encode("utf-8"), cur["cuts"])))
+                body = "".join(sse_block(m, False) for m in rep)
                 return httpx.Response(200, headers={"content-type": "text/event-stream"}, content=_agen(segments(body.encode("utf-8"), cur["cuts"])))
 
             with install("http", handler):
@@ -167,9 +181,13 @@ def run_carrier(carrier: str, steps: List[Dict[str, Any]], client_fn: Callable) 
                 mode = steps[i_before].get("sse_order", "202-first") if (rep is not None and i_before < len(steps)) else "202-first"
 
                 cuts_ = list(cur["cuts"])
+                blocks_text = [sse_block(m, True) for m in rep or []]
+                if mode == "200-reply" and rep:
+                    # the server answers the POST itself: the response alone, or the notifications and the response as an array
+                    return httpx.Response(200, headers={"content-type": "application/json"}, content=dumps(rep[0] if len(rep) == 1 else rep).encode("utf-8"))
 
                 def emit():
-                    blob = b"".join(("event: message\ndata: " + json.dumps(m, ensure_ascii=False) + "\n\n").encode("utf-8") for m in rep or [])
+                    blob = "".join(blocks_text).encode("utf-8")
                     for piece in segments(blob, cuts_):
                         es.feed(piece)
 
@@ -207,7 +225,7 @@ def check(case: Dict[str, Any]) -> Outcome:
         carriers = [c for c in carriers if c != "sse"]
     nonascii = any(any(ord(ch) > 0x7E for ch in json.dumps([s.get("text", ""), s.get("payload", {})], ensure_ascii=False)) for s in steps)
     out.nontrivial = any(s.get("notifs", 0) for s in steps) or nonascii or any(s["reply"] != "result" for s in steps) or any(s.get("cuts") for s in steps) or any(isinstance(s.get("id"), int) for s in steps)
-    out.classes = (f"pass:{mode}", f"steps:{len(steps)}", f"carriers:{len(carriers)}") + (("notifs",) if any(s.get("notifs", 0) for s in steps) else ()) + (("errors",) if any(s["reply"] == "error" for s in steps) else ()) + (("null-id-error",) if any(s["reply"] == "error-null-id" for s in steps) else ()) + (("segmented",) if any(s.get("cuts") for s in steps) else ()) + (("falsy-id",) if any(s.get("id") in (0, "") and not isinstance(s.get("id"), bool) for s in steps) else ())
+    out.classes = (f"pass:{mode}", f"steps:{len(steps)}", f"carriers:{len(carriers)}") + (("notifs",) if any(s.get("notifs", 0) for s in steps) else ()) + (("errors",) if any(s["reply"] == "error" for s in steps) else ()) + (("null-id-error",) if any(s["reply"] == "error-null-id" for s in steps) else ()) + (("segmented",) if any(s.get("cuts") for s in steps) else ()) + (("falsy-id",) if any(s.get("id") in (0, "") and not isinstance(s.get("id"), bool) for s in steps) else ()) + tuple(sorted({"spelling:" + k_ for s in steps for k_ in s.get("spell", {})})) + (("legacy-sse-answers-in-the-post-reply",) if any(s.get("sse_order") == "200-reply" for s in steps) else ())
 
     if mode == "A":
         reqs = [{"jsonrpc": "2.0", "id": s["id"], "method": s["op"], "params": {"p": s.get("text", "")}} for s in steps]
@@ -380,7 +398,13 @@ def cases(draw, mode: str):
         if draw(st.integers(0, 2)) == 0:
             # where the carrier happens to cut the server's bytes (pipe reads, TCP segments)
             s["cuts"] = draw(st.lists(st.integers(1, 600), min_size=1, max_size=4))
-        s["sse_order"] = draw(st.sampled_from(["202-first", "event-first"]))
+        s["sse_order"] = draw(st.sampled_from(["202-first", "event-first", "202-first", "event-first", "200-reply"]))
+        if s["reply"] == "error-null-id" and s["sse_order"] == "200-reply":
+            s["sse_order"] = "202-first"
+        if s["sse_order"] == "200-reply" and s["notifs"] > 3:
+            s["notifs"] = 3
+        if draw(st.integers(0, 2)) == 0:
+            s["spell"] = {k_: True for k_ in draw(st.lists(st.sampled_from(["compact", "nospace", "untyped", "crlf"]), max_size=3, unique=True))}
         if mode == "A":
             s["id"] = draw(st.one_of(st.sampled_from([f"r{k}", f"{100 + k}", f"é{k}", 0, "", 7, "7", "0"]), st.integers(1, 2**53).map(lambda v, k=k: v * 8 + k)))
         steps.append(s)
@@ -429,13 +453,34 @@ def job_cuts(col: Collector, seed: int, tier: str, shard: int, nshards: int) -> 
         col.exhaustive_parts.append("a two-step conversation with non-ASCII text: the server's bytes cut at every offset 1..699 (one cut; two adjacent cuts) on every carrier, both passes")
 
 
-JOBS = {"hyp": job_hyp, "cuts": job_cuts}
+def job_spellings(col: Collector, seed: int, tier: str) -> None:
+    """every combination of the four spelling choices (compact JSON, no space after the colon, untyped events, CRLF) x
+    where the legacy server puts its answer (event stream before / after the 202, or the POST reply itself) x result / error,
+    with notifications before the response and text that contains ': ' and ','"""
+    import itertools as _it
+
+    text = "a: b, c:d \u00e9"
+    for r in range(5):
+        for combo in _it.combinations(["compact", "nospace", "untyped", "crlf"], r):
+            for order in ("202-first", "event-first", "200-reply"):
+                for mode in ("A", "B"):
+                    steps = [{"op": "tools/call", "notifs": 2, "text": text, "payload": {"k: v": text}, "reply": "result", "sse_order": order, "spell": {k_: True for k_ in combo}},
+                             {"op": "ping", "notifs": 0, "text": text, "payload": {}, "reply": "error", "code": -32001, "sse_order": order, "spell": {k_: True for k_ in combo}},
+                             {"op": "tools/list", "notifs": 1, "text": "", "payload": {}, "reply": "result", "sse_order": "202-first"}]
+                    if mode == "A":
+                        steps = [dict(st_, id=[f"r{k}", k + 5][k % 2]) for k, st_ in enumerate(steps)]
+                    case = {"steps": steps, "pass": mode}
+                    col.record(case, check(case))
+    col.exhaustive_parts.append("16 spelling combinations x 3 placements of the legacy server's answer x both passes")
+
+
+JOBS = {"hyp": job_hyp, "cuts": job_cuts, "spellings": job_spellings}
 
 
 def jobs(tier: str):
     if tier == "quick":
-        return [("hyp", {"shard": s, "n": 120, "mode": "A"}) for s in range(8)] + [("hyp", {"shard": 20 + s, "n": 80, "mode": "B"}) for s in range(8)] + [("cuts", {"shard": s, "nshards": 6}) for s in range(6)]
-    return [("hyp", {"shard": s, "n": 700, "mode": "A"}) for s in range(8)] + [("hyp", {"shard": 20 + s, "n": 500, "mode": "B"}) for s in range(8)] + [("cuts", {"shard": s, "nshards": 6}) for s in range(6)]
+        return [("hyp", {"shard": s, "n": 120, "mode": "A"}) for s in range(8)] + [("hyp", {"shard": 20 + s, "n": 80, "mode": "B"}) for s in range(8)] + [("cuts", {"shard": s, "nshards": 6}) for s in range(6)] + [("spellings", {})]
+    return [("hyp", {"shard": s, "n": 700, "mode": "A"}) for s in range(8)] + [("hyp", {"shard": 20 + s, "n": 500, "mode": "B"}) for s in range(8)] + [("cuts", {"shard": s, "nshards": 6}) for s in range(6)] + [("spellings", {})]
 
 
 def shrink(signature: str, seed: int):
